@@ -1,0 +1,34 @@
+// Copyright 2026 Dolthub, Inc.
+//
+// Licensed under the Apache License, Version 2.0 (the "License");
+// you may not use this file except in compliance with the License.
+// You may obtain a copy of the License at
+//
+//     http://www.apache.org/licenses/LICENSE-2.0
+//
+// Unless required by applicable law or agreed to in writing, software
+// distributed under the License is distributed on an "AS IS" BASIS,
+// WITHOUT WARRANTIES OR CONDITIONS OF ANY KIND, either express or implied.
+// See the License for the specific language governing permissions and
+// limitations under the License.
+
+//go:build verif
+
+package datas
+
+import (
+	"context"
+
+	"github.com/dolthub/dolt/go/store/hash"
+	"github.com/dolthub/dolt/go/store/prolly/tree"
+	"github.com/dolthub/dolt/go/store/types"
+)
+
+// Re-export used by the /verif correspondence harness (properties C18/C19). Add-only;
+// compiled only with -tags verif.
+
+// VerifFindCommonAncestorUsingParentsList calls the parents-list (height heap) merge-base walk
+// directly; FindCommonAncestor only reaches it for commits without a stored parent closure.
+func VerifFindCommonAncestorUsingParentsList(ctx context.Context, c1, c2 *Commit, vr1, vr2 types.ValueReader, ns1, ns2 tree.NodeStore) (hash.Hash, bool, error) {
+	return findCommonAncestorUsingParentsList(ctx, c1, c2, vr1, vr2, ns1, ns2)
+}
